@@ -228,8 +228,13 @@ def check_schedule(events, incarnations, t_end, part_violation, sig_prefix=""):
             part_violation("run-of-unknown-or-cancelled-task", "%s run at %.3f although no such task is loaded then" % (uid, s))
             continue
         inc.spawns.append((idx, s, argv))
+        # everything strictly in the past is served by this run (several such occurrences collapse into it); an occurrence
+        # due at this very instant may be served by it as well, or get a run of its own at the next turn of the loop
         due = []
-        while inc.cursor < len(inc.occ) and inc.occ[inc.cursor] <= s + 1e-9:
+        while inc.cursor < len(inc.occ) and inc.occ[inc.cursor] < s - 1e-6:
+            due.append(inc.occ[inc.cursor])
+            inc.cursor += 1
+        if not due and inc.cursor < len(inc.occ) and inc.occ[inc.cursor] <= s + 1e-9:
             due.append(inc.occ[inc.cursor])
             inc.cursor += 1
         if not due:
@@ -254,6 +259,10 @@ def check_schedule(events, incarnations, t_end, part_violation, sig_prefix=""):
     for uid, lst in incarnations.items():
         for inc in lst:
             lim = (inc.end if inc.end is not None else t_end) - EPS
+            # (an occurrence not counted above is served all the same if a run happened at or after it)
+            last = max([sp[1] for sp in inc.spawns], default=-1.0)
+            while inc.cursor < len(inc.occ) and inc.occ[inc.cursor] <= last + 1e-9:
+                inc.cursor += 1
             missed = [o for o in inc.occ[inc.cursor:] if o <= lim]
             if missed:
                 part_violation("occurrence-never-run", "%s (loaded %.3f): occurrence at %.3f was never served (history ends %.3f)"
